@@ -1,6 +1,7 @@
 /-
-  C17 — decoders and parsers are memory-safe and terminate on arbitrary input (decoder half;
-  the parser half is in Props/C17Parsers.lean when present).
+  C17 — decoders and parsers are memory-safe and terminate on arbitrary input. This file: the
+  in-place decoders and the query-string parser; the INI-style and Apache-style parsers are in
+  Props/C17Parsers.lean (imported here, audited as obligations of the same check).
 
   For EVERY NUL-free input string `s` the in-place decoders, run on the buffer `s ++ [0]`
   through checked reads and writes (`rd`/`wr`), return `.ok`: no access outside the buffer,
@@ -8,6 +9,7 @@
 -/
 import QlibcModel.Encode.Base64
 import QlibcModel.Encode.Query
+import QlibcModel.Props.C17Parsers
 
 namespace Qlibc.Props.C17
 open Qlibc Qlibc.Encode Qlibc.Generated
